@@ -16,7 +16,9 @@ package main
 //   keylevel_{plain,hoisted,lazy,scheme,hoisted_pw2} (c11_keylevels.go: Galois keys at every (LevelQ, LevelP), base-2 variants),
 //   metadata_propagated, metadata_value (c11_meta.go: out-of-place into receivers with different metadata);
 //   keys_sufficient / sum_spec with labels <operation>-<accessor> (c11_accessors.go: every advertised-keys accessor
-//   against every operation it serves, keys from that accessor only).
+//   against every operation it serves, keys from that accessor only);
+//   circuit_keys_sufficient, circuit_value (c11_circuits.go: lintrans / dft advertised lists, naive and BSGS, sparse packing,
+//   negative and out-of-range diagonal spellings); nonntt_value, nonntt_flag (c11_nonntt.go: coefficient-domain inputs).
 
 import (
 	"fmt"
@@ -439,6 +441,7 @@ func genC11(c *Ctx) {
 	c11KeyLevels(c)
 	c11Meta(c)
 	c11AccessorLarge(c)
+	c11Circuits(c)
 }
 
 func c11SpecialKs(c *Ctx, slots int, nthRoot uint64) []int {
@@ -858,6 +861,7 @@ func c11OneCtx(c *Ctx, x *c11Ctx) {
 		c11AccessorMatrix(c, x, base, b, n)
 	}
 	c11AccessorOther(c, x)
+	c11NonNTT(c, x)
 
 	// ---- rejected / degenerate arguments
 	for _, bn := range [][2]int{{0, 3}, {3, 0}, {0, 0}, {1, 1}, {x.cols, 1}} {
